@@ -8,6 +8,7 @@
   JSON number printer is C07's subject).
 -/
 import JaqVerif.C13.Regex
+import JaqVerif.C07.Write
 
 namespace Jaq.C13
 
@@ -18,12 +19,14 @@ inductive Res where
   | unsupported
   deriving Inhabited
 
-def decBytes (i : Int) : Bytes := (toString i).toUTF8.toList
+/-- ROUND 2: integers and decimal literals are printed by C07's model of `impl Display for Num`
+(`C07.intText`, `C07.decBytes`), so that `toJson` is literally a fragment of C07's proved writer -/
+def decBytes (i : Int) : Bytes := C07.intText i
 
 def numText : Num → Option Bytes
   | .int i => some (decBytes i)
   | .big i => some (decBytes i)
-  | .dec s => some s.toUTF8.toList
+  | .dec s => some (C07.decBytes s)
   | .float _ => none
 
 def joinOpt (sep : Bytes) : List (Option Bytes) → Option Bytes
@@ -33,6 +36,12 @@ def joinOpt (sep : Bytes) : List (Option Bytes) → Option Bytes
     match x, joinOpt sep (y :: rest) with
     | some a, some b => some (a ++ sep ++ b)
     | _, _ => none
+
+/-- one object entry `key:value` -/
+def pairJson (a b : Option Bytes) : Option Bytes :=
+  match a, b with
+  | some a, some b => some (a ++ [58] ++ b)
+  | _, _ => none
 
 mutual
   /-- `to_json` (compact) for the modelled fragment; `none` = not modelled -/
@@ -51,9 +60,7 @@ mutual
   def toJsonEntries : List (Val × Val) → List (Option Bytes)
     | [] => []
     | (k, v) :: es =>
-      (match toJson k, toJson v with
-       | some a, some b => some (a ++ [58] ++ b)
-       | _, _ => none) :: toJsonEntries es
+      pairJson (toJson k) (toJson v) :: toJsonEntries es
 end
 
 /-- `tostring` = `"\(.)"` = `into_string`: strings keep their bytes, everything else `to_json` -/
@@ -113,9 +120,13 @@ def shArgsOf : List Val → Option (Option (List ShArg))
     | _, some none => some none
     | some (some f), some (some fs) => some (some (f :: fs))
 
+/-- `if isarray then .[] end` -/
+def shArgList : Val → List Val
+  | .arr a => a
+  | v => [v]
+
 def shFmt (v : Val) : Res :=
-  let args := match v with | .arr a => a | v => [v]
-  match shArgsOf args with
+  match shArgsOf (shArgList v) with
   | none => .unsupported
   | some none => .err
   | some (some xs) => okStr (sh xs)
@@ -242,14 +253,37 @@ def filterRun (name : String) (v : Val) (args : List Val) : Res :=
   | name, [] => fmtRun name v
   | _, _ => .unsupported
 
-/-- `@fmt "l0\(v0)l1\(v1)l2"`: every interpolated value is piped through the formatter, the
-literal parts are not; the parts are concatenated -/
+/-! ## format strings `@fmt "…\(f)…"` — `jaq-core/src/compile.rs`, `Compiler::term`, arm `Str(fmt, parts)`:
+`StrPart::Str / Char` become `Term::Str` (NOT formatted), `StrPart::Term(f)` becomes `f | fmt`
+(formatted); the parts are summed left to right (`sum_or`), i.e. concatenated. -/
+
+/-- one part of a format string: literal text, or (the single output of) an interpolated term -/
+inductive FmtPart where
+  | lit (s : Bytes)
+  | interp (v : Val)
+  deriving Inhabited
+
+/-- what one part contributes -/
+def fmtPartRun (name : String) : FmtPart → Res
+  | .lit s => okStr s
+  | .interp v => fmtRun name v
+
+/-- sum of the part results (all errors are of one class; `unsupported` = outside the model) -/
+def fmtSum : List Res → Res
+  | [] => okStr []
+  | r :: rs =>
+    match r, fmtSum rs with
+    | .unsupported, _ => .unsupported
+    | _, .unsupported => .unsupported
+    | .ok (.tstr a), .ok (.tstr b) => okStr (a ++ b)
+    | _, _ => .err
+
+/-- `@name "p0 p1 … pn"` for ANY interleaving of literal and interpolated parts -/
+def fmtStringN (name : String) (parts : List FmtPart) : Res := fmtSum (parts.map (fmtPartRun name))
+
+/-- `@fmt "l0\(v0)l1\(v1)l2"` (round 1's two-interpolation shape) -/
 def fmtString (name : String) (l0 : Bytes) (v0 : Val) (l1 : Bytes) (v1 : Val) (l2 : Bytes) : Res :=
-  match fmtRun name v0, fmtRun name v1 with
-  | .ok (.tstr a), .ok (.tstr b) => okStr (l0 ++ a ++ l1 ++ b ++ l2)
-  | .unsupported, _ => .unsupported
-  | _, .unsupported => .unsupported
-  | _, _ => .err
+  fmtStringN name [.lit l0, .interp v0, .lit l1, .interp v1, .lit l2]
 
 /-! ## regex natives -/
 
@@ -272,6 +306,6 @@ def rxRun (kind : String) (g n : Bool) (s : Bytes) (caps : List (List Cap)) : Op
     | "split_" => some (true, false)
     | _ => none
   sm.map fun (mi, ma) =>
-    ((if regexOffsetsRepaired then regexPartsRepaired s g n mi ma caps else regexParts s g n mi ma caps)).map fun ps => .arr (ps.map partVal)
+    ((if regexOffsetsRepaired then regexPartsRestart s g n mi ma caps else regexParts s g n mi ma caps)).map fun ps => .arr (ps.map partVal)
 
 end Jaq.C13
